@@ -50,8 +50,8 @@ type c03Out struct {
 }
 
 const (
-	sentinelSEID   = uint64(1<<64 - 1)
-	sentinelURR    = uint32(1<<32 - 1)
+	sentinelSEID   = uint64(0x5ea71e550badf00d) // cases must not use this SEID
+	sentinelURR    = uint32(0x5ea71e55)
 	sentinelPeriod = 24 * time.Hour
 )
 
@@ -239,10 +239,14 @@ func (e *c03Env) one(c c03Case) (out c03Out) {
 			out.Err = fmt.Sprintf("panic:%v", p)
 		}
 	}()
+	if c.SEID == sentinelSEID {
+		panic("badcase: the sentinel SEID")
+	}
 	e.k.Reset()
+	e.g.VerifPerio().AddPeriodReportTimer(sentinelSEID, sentinelURR, sentinelPeriod) // idempotent
 	out.Steps = []gtp5gOut{}
 	out.Ticks = []c03Tick{}
-	var urrs []uint32
+	urrs := []uint32{0} // a Create URR without URR ID registers id 0
 	for _, st := range c.Steps {
 		o := e.step(c.SEID, st)
 		out.Steps = append(out.Steps, o)
